@@ -272,6 +272,11 @@ fn leak_case(out: &mut Out, file_mode: bool, seedcase: &str, level: &str, varian
         "kms-gcp" => entries.push(("kms_protection".into(), "projects/p/locations/global/keyRings/r/cryptoKeys/k".into())),
         "kms-bad" => entries.push(("kms_protection".into(), "vault".into())),
         "seed-long" => { entries[2].1.push_str("ab"); }
+        // a key given twice (yaml-rust keeps the last one): whatever the loader says about it must not quote the seed
+        // (seeded change C20-r6: a duplicate-key warning quoted both source lines)
+        "dup-seed" => { let other: String = entries[2].1.chars().rev().collect(); entries.insert(1, ("seed".into(), other)); }
+        "dup-seed-same" => { let same = entries[2].1.clone(); entries.push(("seed".into(), same)); }
+        "dup-port" => entries.push(("port".into(), "8687".into())),
         "bad-port" => { entries[0].1 = "0".into(); }
         "bad-workers" => entries.push(("num_workers".into(), "0".into())),
         "bad-fault" => entries.push(("fault_percentage".into(), "99".into())),
@@ -321,7 +326,8 @@ pub fn run_leak(ctx: &Ctx) {
         for seedcase in ["lower", "upper", "mixed"] {
             for level in ["off", "error", "warn", "info", "debug", "trace"] {
                 for variant in ["valid", "bad-batch", "unknown-key", "bad-int", "stats-no-dir", "kms-aws", "kms-gcp", "kms-bad", "seed-long",
-                                "bad-port", "bad-workers", "bad-fault", "dir-missing"] {
+                                "bad-port", "bad-workers", "bad-fault", "dir-missing", "dup-seed", "dup-seed-same", "dup-port"] {
+                    if !file_mode && variant.starts_with("dup-") { continue; }
                     n += 1;
                     if !out.mine() { out.skip(); continue; }
                     if !ctx.thorough && (n % 3 != 0) && level != "trace" && level != "error" { out.skip(); continue; }
